@@ -11,8 +11,8 @@ import FitModel.Generated.ProfileStrs
 -- @family pstr Drv.Profile.hPstr
 /-!
 Driver for the family `profilerows` (C17). Model answer = the regenerated dump of the compiled packages
-(`Fit.Gen.Prof`), `--spec` = the independent reading of Profile.xlsx (`Fit.Gen.Xlsx`), `--kf` = the row mentions
-one of the three spell-corrected identifiers. Rendering as in harness/fam_profile.go.
+(`Fit.Gen.Prof`), `--spec` = the independent reading of Profile.xlsx (`Fit.Gen.Xlsx`; for the types: minus exactly the rows
+`Fit.ProfileSpec.r7Dropped` lists — reading rule R7), `--kf` = the row mentions one of the three spell-corrected identifiers. Rendering as in harness/fam_profile.go.
 -/
 namespace Drv.Profile
 open Drv Fit.ProfileSpec Fit.Gen
@@ -56,8 +56,10 @@ def tables : Src → List Mesg
   | .xlsxFixed => Xlsx.mesgs.map (Mesg.fix f14)
 def typeRows : Src → List TypeRow
   | .prof => Prof.types
-  | .xlsx => Xlsx.types.map TypeRow.dedupe
-  | .xlsxFixed => Xlsx.types.map fun t => (t.dedupe).fix f14
+  -- reading rule R7 as the explicit list of rows it drops (`C17_dedupe_exact`, `C17_types_eq_xlsx_listed`): a constant missing
+  -- from the compiled packages that is not in `r7Dropped` is a failing row here, whatever its comment says
+  | .xlsx => Xlsx.types.map (TypeRow.dropListed r7Dropped)
+  | .xlsxFixed => Xlsx.types.map fun t => (t.dropListed r7Dropped).fix f14
 
 def prow (spec : Src) (args : List String) : String :=
   match args with
